@@ -7,7 +7,7 @@ use std::borrow::Borrow;
 use std::fmt;
 
 /// key classes (wide enough for containers beyond 256 entries)
-pub type Cls = u16;
+pub type Cls = u32;
 
 pub const KMAGIC: u32 = 0x4B45_5921;
 pub const VMAGIC: u32 = 0x5641_4C21;
@@ -73,6 +73,9 @@ impl Val {
 
 impl PartialEq for Key {
     fn eq(&self, other: &Key) -> bool {
+        if ledger::is_quiet() {
+            return self.cls.class == other.cls.class;
+        }
         self.check("eq(lhs)");
         other.check("eq(rhs)");
         ledger::maybe_panic('e', self.serial, other.serial);
@@ -83,6 +86,9 @@ impl Eq for Key {}
 
 impl PartialEq for Class {
     fn eq(&self, other: &Class) -> bool {
+        if ledger::is_quiet() {
+            return self.class == other.class;
+        }
         self.check("eq(lhs,borrowed)");
         other.check("eq(rhs,borrowed)");
         ledger::maybe_panic('q', self.owner, other.owner);
@@ -93,6 +99,9 @@ impl Eq for Class {}
 
 impl Borrow<Class> for Key {
     fn borrow(&self) -> &Class {
+        if ledger::is_quiet() {
+            return &self.cls;
+        }
         self.check("borrow");
         &self.cls
     }
